@@ -818,6 +818,60 @@ def guarded_values(fn: ast.FunctionDef, name: str) -> list:
     return out
 
 
+def str_template(e: ast.AST | None) -> list | None:
+    """a string-building expression as a template: [("lit", text) | ("expr", node, format_spec_source)], adjacent literals merged.
+    Understands f-strings, string constants, `+` concatenation, `SEP.join([part, ...])` over a list/tuple display and str(x)."""
+    def parts(n) -> list | None:
+        if isinstance(n, ast.Constant) and isinstance(n.value, str):
+            return [("lit", n.value)]
+        if isinstance(n, ast.JoinedStr):
+            out = []
+            for v in n.values:
+                if isinstance(v, ast.Constant):
+                    out.append(("lit", str(v.value)))
+                elif isinstance(v, ast.FormattedValue):
+                    spec = U(v.format_spec) if v.format_spec is not None else ""
+                    conv = {-1: "", 115: "!s", 114: "!r", 97: "!a"}.get(v.conversion, "")
+                    if not spec and conv in ("", "!s"):
+                        inner = parts(v.value) if isinstance(v.value, (ast.JoinedStr,)) else None
+                        if inner is not None:
+                            out.extend(inner)
+                            continue
+                    out.append(("expr", v.value, conv + spec))
+                else:
+                    return None
+            return out
+        if isinstance(n, ast.BinOp) and isinstance(n.op, ast.Add):
+            l, r = parts(n.left), parts(n.right)
+            return None if l is None or r is None else l + r
+        if isinstance(n, ast.Call) and isinstance(n.func, ast.Attribute) and n.func.attr == "join" and isinstance(n.func.value, ast.Constant) \
+                and isinstance(n.func.value.value, str) and len(n.args) == 1 and isinstance(n.args[0], (ast.List, ast.Tuple)):
+            out = []
+            for i, el in enumerate(n.args[0].elts):
+                p = parts(el)
+                if p is None:
+                    return None
+                if i:
+                    out.append(("lit", n.func.value.value))
+                out.extend(p)
+            return out
+        if isinstance(n, ast.Call) and U(n.func) == "str" and len(n.args) == 1 and not n.keywords:
+            return [("expr", n.args[0], "")]
+        return None
+    p = parts(e) if e is not None else None
+    if p is None:
+        return None
+    merged: list = []
+    for x in p:
+        if x[0] == "lit" and merged and merged[-1][0] == "lit":
+            merged[-1] = ("lit", merged[-1][1] + x[1])
+        elif x[0] == "lit" and x[1] == "":
+            continue
+        else:
+            merged.append(x)
+    return merged
+
+
 def value_candidates(fn: ast.FunctionDef, name_or_none: str | None = None):
     """what a function can return, each with the branch literals under which it is produced:
     [(expression, [(test, polarity), ...])] - for `return <expr>` the expression itself; for `return <name>` every definition of that
